@@ -563,6 +563,11 @@ fn gen_c12(tier: &str, rng: &mut Rng, emit: &mut dyn FnMut(Op)) {
             emit(Op::new("distinfo.find", &[&doc, l]));
         }
     }
+    // the lines of one file need not be contiguous: everything recorded for it is found together
+    let doc3: &[u8] = b"SHA1 (c.tgz) = 11\nSHA1 (d.tgz) = 21\nRMD160 (c.tgz) = 12\nSize (d.tgz) = 7 bytes\nSHA512 (c.tgz) = 13\nSize (c.tgz) = 5 bytes\nSHA1 (patch-aa) = 31\nSHA1 (patch-ab) = 41\nMD5 (patch-aa) = 32\n";
+    for l in [&b"c.tgz"[..], b"d.tgz", b"x/c.tgz", b"patch-aa", b"patch-ab", b"y/patch-aa"] {
+        emit(Op::new("distinfo.find", &[doc3, l]));
+    }
     // only the FILE NAME decides between patch and distfile: directory components that look like
     // tarballs, patches or backups decide nothing
     let doc2: &[u8] = b"SHA1 (patch-aa) = 1\nSHA1 (libfoo-1.2.tar.gz.d/patch-ab) = 2\nSHA1 (patch-dir/c.tgz) = 3\nSHA1 (x.orig/patch-ac) = 4\nSize (c.tgz) = 5 bytes\n";
